@@ -140,7 +140,7 @@ func checkGoldenIDs(c *Ctx, regs []Registration, vt *VersionTable) {
 			"the id of a packet in an already released protocol version changed against the reference table (ids of released versions are immutable; Velocity and vanilla use the reference value): "+d)
 	}
 	c.Info["reference_cells"] = cells
-	if cells < 2000 {
+	if cells < 1400 {
 		c.Undecided("reference-ids", "coverage", fmt.Sprintf("only %d reference cells evaluated", cells))
 	}
 }
